@@ -54,7 +54,7 @@ out.append(f"{n_caught} of {n_mut} mutants are reported by at least one check. T
 out.append("Mutants that were first **missed** and led to a stronger generator or oracle (then re-run): `c14-ownership-compare-former-too` (the ownership-transfer message now varies its code-id fields), `c13-accept-two-dangling` (router worlds now donate to the router, so a disconnected hop can execute), `c13-last-hop-drops-recipient-on-long-routes` (written after `c13-intermediate-hop-carries-to` proved equivalent).\n")
 
 # ---- seeded -----------------------------------------------------------------------------------------
-out.append("### D.2 Independently seeded changes (`seeded/<ID>/`, `<ID>b`, `<ID>c`: two per property, three for six of them)\n")
+out.append("### D.2 Independently seeded changes (`seeded/<ID>/`, `<ID>b`, `<ID>c`: two per property, three for thirteen of them)\n")
 out.append("Each change was produced by a fresh sub-agent that was given only the text of one property and its own scratch git worktree of `/repo` (nothing from `/verif`), and asked for a change that breaks the property, still compiles, keeps the existing 101 tests green and needs something specific to manifest, plus a demonstration test. Round 2 (`<ID>b`) and round 3 (`<ID>c`) agents were additionally told in one line each what the earlier changes for the same property were, and asked for something materially different. Every change was confirmed by `seeded/verify.sh` (demonstration passes on the clean tree, fails with the patch; the 101 existing tests pass with the patch alone) before it was kept.\n")
 out.append("| Seeded change | What it needs to manifest | Reported by (time) | Also run, not reporting it | Note |")
 out.append("|---|---|---|---|---|")
@@ -75,13 +75,14 @@ for k in ids:
         note = short(oc.replace('\n', ' '), 330)
     out.append(f"| `{k}` | {needs} | {', '.join(hit) or '-'} | {', '.join(miss) or '-'} | {note} |")
 out.append("")
-out.append(f"{n_seed_caught} of {n_seed} seeded changes are reported by the check of the property they break (final machinery). Seven of them were first missed, or not detected for an infrastructure reason, and each miss was answered by widening a generator or correcting an oracle - never by special-casing the change:\n")
+out.append(f"{n_seed_caught} of {n_seed} seeded changes are reported by the check of the property they break (final machinery). Eight of them were first missed, or not detected for an infrastructure reason, and each miss was answered by widening a generator or correcting an oracle - never by special-casing the change:\n")
 out.append("""* `C01` (swap refunds surplus coins it had priced on): the swap generators never attached a coin of the pair's *other* native denom of reserve-like size -> `extra_ask_16` class in every swap profile.
 * `C14` (router `Receive` re-enters `execute` with the envelope's sender): the caller matrix only sent internal messages directly -> every pair/router message is also smuggled through the public cw20 `Receive` entry with a spoofed envelope sender.
 * `C07b` (cw20-entered route without `to` pays the token contract): the C07 frame wrongly allowed the addressed token contract's own balances to change -> removed.
 * `C20b` (decimals re-registration corrupts the pair's LP-token record, blocking withdrawals): no history contained owner administration -> re-registration / config update / migration operations in the history profiles; C17 now compares the whole factory record with the pair's self-description.
 * `C15b` (guard gets message-order deposits; the helper's signature changed): the harness no longer compiled -> every call of an internal helper sits behind its own cargo feature (`harness/src/direct.rs`) and `./check` rebuilds without a shim that does not compile; the system-level suite reports the change.
 * `C16b` (allow-list keyed by a case-normalised denom): all generated denoms were lower case -> unregistered look-alikes of a registered denom (upper case, capitalised, suffixed) in the asset universe.
+* `C17c` (slot test by rendered spelling instead of asset kind): no world held a native denom spelled like a cw20 contract address (F12 had excluded that spelling everywhere because of the router's route-shape map) -> factory-only worlds (C16, C17, C19) now hold such a denom in a quarter of the worlds with a token, and C17's re-registrations prefer it when the same-spelled token is paired.
 * own mutants of C13 / C14, see D.1.
 
 What the seeded changes taught about this technique here: the oracles were never the weak point (every miss was a *generator* blind spot: an input shape, an entry path, an operation kind or an identifier alphabet that was not produced), which is why the second round - asked to differ from the first - was as valuable as the first.
